@@ -54,11 +54,15 @@ pub struct HCfg {
     pub allow_early_timer: bool,
     pub force_nonce: bool,
     pub packet_filter: bool,
+    /// a peer that is not a real handler (played by a driver): requests with `to >= nodes` go there
+    pub ghost: Option<(Enr, SocketAddr, bool)>,
+    /// sequence number of the record the application "knows" for node 1 (who-are-you answers)
+    pub known_seq: u64,
 }
 
 impl Default for HCfg {
     fn default() -> Self {
-        HCfg { nodes: 2, workload: vec![], retries: 1, session_timeout: None, session_capacity: None, allow_drop: true, allow_dup: true, allow_reorder: true, allow_restart: vec![], allow_late_way: true, allow_early_timer: true, force_nonce: false, packet_filter: false }
+        HCfg { nodes: 2, workload: vec![], retries: 1, session_timeout: None, session_capacity: None, allow_drop: true, allow_dup: true, allow_reorder: true, allow_restart: vec![], allow_late_way: true, allow_early_timer: true, force_nonce: false, packet_filter: false, ghost: None, known_seq: 1 }
     }
 }
 
@@ -79,6 +83,24 @@ pub enum Ev {
     Ext(u32),
 }
 
+/// Engine-specific extension: extra events (attacker moves, mutations, idling) and monitors.
+pub trait Driver: Sync {
+    fn ext_enabled(&self, _w: &World) -> Vec<(Ev, u32)> {
+        vec![]
+    }
+    fn ext_step<'a>(&'a self, _w: &'a mut World, _code: u32) -> std::pin::Pin<Box<dyn std::future::Future<Output = ()> + 'a>> {
+        Box::pin(async {})
+    }
+    fn check(&self, _w: &mut World, _ev: &Ev, _pre: &[Option<HandlerSnapshot>]) {}
+    fn leaf_check(&self, _w: &mut World) {}
+    fn fingerprint_extra(&self, _w: &World) -> u128 {
+        0
+    }
+}
+
+pub struct NoDriver;
+impl Driver for NoDriver {}
+
 /* ------------------------------------------------------------------------------------ */
 /* World                                                                                 */
 /* ------------------------------------------------------------------------------------ */
@@ -93,6 +115,8 @@ pub struct Datagram {
     pub kind: u8, // 0 message, 1 whoareyou, 2 handshake
     pub nonce: [u8; 12],
     pub sent_at: Instant,
+    /// true origin: node index, or -1 for a datagram crafted by a driver (attacker)
+    pub origin: i32,
 }
 
 pub struct HNode {
@@ -144,6 +168,7 @@ pub struct World {
     pub keys: BTreeMap<[u8; 16], (usize, SocketAddr)>,
     /// app-level events per node (canonical strings) of the last step
     pub last_events: Vec<Vec<String>>,
+    pub last_raw: Vec<Vec<HandlerOut>>,
     pub all_events: Vec<Vec<String>>,
     pub t0: Instant,
     pub violations: Vec<Violation>,
@@ -156,6 +181,10 @@ pub struct World {
     pub step_no: u64,
     /// datagrams delivered in the current step: (dst node, kind, src addr, claimed src id, nonce)
     pub delivered_now: Vec<(usize, u8, SocketAddr, Option<NodeId>, [u8; 12])>,
+    /// true origin of each entry of `delivered_now`
+    pub delivered_origin: Vec<i32>,
+    /// (node id, address) pairs node 0 itself dialled and answered a WHOAREYOU for
+    pub initiated: BTreeSet<([u8; 32], SocketAddr)>,
     pub idnonces: BTreeSet<[u8; 16]>,
     pub monitors: Monitors,
     /// response datagrams (by log sequence number) delivered per (node, request id)
@@ -164,6 +193,10 @@ pub struct World {
     /// internal requests whose answer the handler consumed (session no longer awaits them)
     pub awaited_seen: BTreeSet<(usize, Vec<u8>)>,
     pub internal_answers_now: BTreeSet<(usize, Vec<u8>)>,
+    /// attacker memory (challenge data of its own WHOAREYOUs, ...)
+    pub scratch: Vec<(String, Vec<u8>)>,
+    /// (node id, address) pairs that proved their identity to node 0 (harness-side fact)
+    pub proved: BTreeSet<([u8; 32], SocketAddr)>,
 }
 
 #[derive(Clone, Debug)]
@@ -228,6 +261,7 @@ impl World {
             ledger: vec![ReqLedger::default(); cfg.workload.len()],
             keys: BTreeMap::new(),
             last_events: vec![vec![]; n],
+            last_raw: vec![vec![]; n],
             all_events: vec![vec![]; n],
             t0: Instant::now(),
             violations: vec![],
@@ -237,12 +271,16 @@ impl World {
             emitted_by_key: BTreeMap::new(),
             step_no: 0,
             delivered_now: vec![],
+            delivered_origin: vec![],
+            initiated: BTreeSet::new(),
             idnonces: BTreeSet::new(),
             monitors,
             delivered_responses: BTreeMap::new(),
             log_mark: 0,
             awaited_seen: BTreeSet::new(),
             internal_answers_now: BTreeSet::new(),
+            scratch: vec![],
+            proved: BTreeSet::new(),
         }
     }
 
@@ -314,7 +352,7 @@ impl World {
                             self.violate("C19", "the id-nonces of WHOAREYOU packets never repeat", "idnonce-repeat", format!("node {i}"));
                         }
                     }
-                    let d = Datagram { seq: self.log.len(), src: self.nodes[i].addr, dst: out.dst.socket_addr, dst_id: out.dst.node_id, bytes: out.bytes, kind, nonce: out.packet.message_nonce, sent_at: Instant::now() };
+                    let d = Datagram { seq: self.log.len(), src: self.nodes[i].addr, dst: out.dst.socket_addr, dst_id: out.dst.node_id, bytes: out.bytes, kind, nonce: out.packet.message_nonce, sent_at: Instant::now(), origin: i as i32 };
                     self.log.push(d.clone());
                     self.inflight.push(d);
                 }
@@ -345,6 +383,7 @@ impl World {
             HandlerOut::ExpiredSessions(s) => format!("ExpiredSessions({})", s.len()),
         };
         self.last_events[i].push(desc.clone());
+        self.last_raw[i].push(ev.clone());
         self.all_events[i].push(desc);
         match ev {
             HandlerOut::WhoAreYou(w) => self.nodes[i].way_queries.push(w),
@@ -406,7 +445,7 @@ impl World {
         }
         let now = Instant::now();
         let peer = self.cfg.workload[k].to;
-        let peer_addr = self.nodes[peer].addr;
+        let peer_addr = if peer < self.nodes.len() { self.nodes[peer].addr } else { self.cfg.ghost.as_ref().map(|g| g.1).expect("ghost") };
         let mut witness = false;
         for (j, r) in self.cfg.workload.iter().enumerate() {
             if r.from == i && r.to == peer {
@@ -516,12 +555,16 @@ impl World {
         out
     }
 
-    pub async fn step(&mut self, ev: &Ev) -> String {
+    pub async fn step(&mut self, ev: &Ev, driver: &dyn Driver) -> String {
         self.step_no += 1;
         for e in self.last_events.iter_mut() {
             e.clear();
         }
+        for e in self.last_raw.iter_mut() {
+            e.clear();
+        }
         self.delivered_now.clear();
+        self.delivered_origin.clear();
         let pre: Vec<Option<HandlerSnapshot>> = (0..self.nodes.len()).map(|i| self.snap(i)).collect();
         self.log_mark = self.log.len();
         if !matches!(ev, Ev::Timer | Ev::Idle(_)) {
@@ -530,8 +573,13 @@ impl World {
         match ev {
             Ev::Submit(k) => {
                 let r = self.cfg.workload[*k].clone();
-                let to = &self.nodes[r.to];
-                let contact = if r.with_enr { NodeContact::try_from_enr(to.enr.clone(), IpMode::Ip4).unwrap() } else { NodeContact::new(to.enr.public_key(), to.addr, None) };
+                let contact = if r.to < self.nodes.len() {
+                    let to = &self.nodes[r.to];
+                    if r.with_enr { NodeContact::try_from_enr(to.enr.clone(), IpMode::Ip4).unwrap() } else { NodeContact::new(to.enr.public_key(), to.addr, None) }
+                } else {
+                    let (enr, addr, _) = self.cfg.ghost.clone().expect("ghost peer");
+                    if r.with_enr { NodeContact::new(enr.public_key(), addr, Some(enr)) } else { NodeContact::new(enr.public_key(), addr, None) }
+                };
                 let body = match r.body {
                     Body::Ping => v::RequestBody::Ping { enr_seq: 1 },
                     Body::Find(_) => v::RequestBody::FindNode { distances: vec![255, 256] },
@@ -554,7 +602,11 @@ impl World {
             }
             Ev::AnsWay(n, known) => {
                 let w = self.nodes[*n].way_queries.remove(0);
-                let enr = if *known { self.nodes.iter().find(|x| x.id == w.0.node_id).map(|x| x.enr.clone()) } else { None };
+                let enr = if *known {
+                    self.nodes.iter().find(|x| x.id == w.0.node_id).map(|x| if self.cfg.known_seq > 1 { util::enr4(&x.key, self.cfg.known_seq, x.addr) } else { x.enr.clone() })
+                } else {
+                    None
+                };
                 let _ = self.nodes[*n].tx.send(HandlerIn::WhoAreYou(w, enr));
             }
             Ev::Respond(n) => {
@@ -604,10 +656,13 @@ impl World {
                 }
                 self.prev_snaps[*n] = None;
             }
-            Ev::Ext(_) => {}
+            Ev::Ext(code) => {
+                driver.ext_step(self, *code).await;
+            }
         }
         self.absorb().await;
         self.after_step(ev, &pre);
+        driver.check(self, ev, &pre);
         format!("{:?}", self.last_events)
     }
 
@@ -621,6 +676,7 @@ impl World {
                 _ => None,
             });
             self.delivered_now.push((i, d.kind, src, claimed, d.nonce));
+            self.delivered_origin.push(d.origin);
             // C04 / C13: does this datagram complete the answer of a request of node i?
             let (plain, _k) = self.read(d);
             if let Plain::Response(id, _) = &plain {
@@ -630,13 +686,14 @@ impl World {
         }
     }
 
-    pub async fn deliver_raw(&mut self, to: usize, src: SocketAddr, bytes: &[u8], kind: u8, nonce: [u8; 12]) {
+    pub async fn deliver_raw(&mut self, to: usize, src: SocketAddr, bytes: &[u8], kind: u8, nonce: [u8; 12], origin: i32) {
         let claimed = VPacket::decode(&self.nodes[to].id, bytes).ok().and_then(|(p, _)| match p.kind {
             PacketKind::Message { src_id } => Some(src_id),
             PacketKind::Handshake { src_id, .. } => Some(src_id),
             _ => None,
         });
         self.delivered_now.push((to, kind, src, claimed, nonce));
+        self.delivered_origin.push(origin);
         self.nodes[to].wire.inject(src, bytes).await;
     }
 
@@ -996,6 +1053,20 @@ pub struct RunOut {
 }
 
 pub async fn run_history(cfg: &HCfg, monitors: Monitors, hist: &[Ev], complete: bool) -> mc::Outcome<Ev> {
+    run_history_with(cfg, monitors, hist, complete, &NoDriver).await
+}
+
+pub fn enabled_with(w: &World, driver: &dyn Driver) -> Vec<(Ev, u32)> {
+    let mut e = w.enabled();
+    for x in driver.ext_enabled(w) {
+        if !e.iter().any(|(y, _)| *y == x.0) {
+            e.push(x);
+        }
+    }
+    e
+}
+
+pub async fn run_history_with(cfg: &HCfg, monitors: Monitors, hist: &[Ev], complete: bool, driver: &dyn Driver) -> mc::Outcome<Ev> {
     let mut w = World::build(cfg, monitors).await;
     let mut chain = vec![];
     let mut prev = None;
@@ -1006,10 +1077,10 @@ pub async fn run_history(cfg: &HCfg, monitors: Monitors, hist: &[Ev], complete: 
             w.counters.clear();
         }
         // replay guard: the event must be enabled in the state reached
-        if !w.enabled().iter().any(|(e, _)| e == ev) {
+        if !enabled_with(&w, driver).iter().any(|(e, _)| e == ev) {
             mc::machinery(&format!("replay divergence: {:?} not enabled after {:?}", ev, &hist[..i]));
         }
-        let obs = w.step(ev).await;
+        let obs = w.step(ev, driver).await;
         steps += 1;
         let c = mc::chain(prev, &obs);
         chain.push(c);
@@ -1019,8 +1090,8 @@ pub async fn run_history(cfg: &HCfg, monitors: Monitors, hist: &[Ev], complete: 
             break;
         }
     }
-    let fp = w.fingerprint();
-    let enabled = if violation.is_none() { w.enabled() } else { vec![] };
+    let fp = mc::fp_of(&(w.fingerprint(), driver.fingerprint_extra(&w)));
+    let enabled = if violation.is_none() { enabled_with(&w, driver) } else { vec![] };
     let counters = std::mem::take(&mut w.counters);
     let mut terminal = None;
     if violation.is_none() && complete {
@@ -1030,7 +1101,7 @@ pub async fn run_history(cfg: &HCfg, monitors: Monitors, hist: &[Ev], complete: 
             if n > 300 {
                 mc::machinery(&format!("no leaf within 300 default steps after {:?}", hist));
             }
-            w.step(&ev).await;
+            w.step(&ev, driver).await;
             steps += 1;
             if !w.violations.is_empty() {
                 break;
@@ -1038,6 +1109,7 @@ pub async fn run_history(cfg: &HCfg, monitors: Monitors, hist: &[Ev], complete: 
         }
         if w.violations.is_empty() {
             w.leaf_check();
+            driver.leaf_check(&mut w);
         }
         if let Some(v) = w.violations.first().cloned() {
             violation = Some(v);
@@ -1102,7 +1174,7 @@ pub fn parse_history(s: &str) -> Vec<Ev> {
 }
 
 /// Replays a history step by step, printing what every node did; then the default continuation.
-pub async fn replay_verbose(cfg: &HCfg, monitors: Monitors, hist: &[Ev]) {
+pub async fn replay_verbose(cfg: &HCfg, monitors: Monitors, hist: &[Ev], driver: &dyn Driver) {
     let mut w = World::build(cfg, monitors).await;
     let mut show = |w: &World, ev: &Ev| {
         println!("== {:?}  (t = {:?})", ev, w.t0.elapsed());
@@ -1122,7 +1194,7 @@ pub async fn replay_verbose(cfg: &HCfg, monitors: Monitors, hist: &[Ev]) {
         }
     };
     for ev in hist {
-        w.step(ev).await;
+        w.step(ev, driver).await;
         show(&w, ev);
         if let Some(v) = w.violations.first() {
             println!("VIOLATION {}: {} — {}", v.key, v.clause, v.detail);
@@ -1137,7 +1209,7 @@ pub async fn replay_verbose(cfg: &HCfg, monitors: Monitors, hist: &[Ev]) {
             println!("no leaf within 300 steps");
             return;
         }
-        w.step(&ev).await;
+        w.step(&ev, driver).await;
         show(&w, &ev);
         if let Some(v) = w.violations.first() {
             println!("VIOLATION {}: {} — {}", v.key, v.clause, v.detail);
@@ -1145,6 +1217,7 @@ pub async fn replay_verbose(cfg: &HCfg, monitors: Monitors, hist: &[Ev]) {
         }
     }
     w.leaf_check();
+    driver.leaf_check(&mut w);
     match w.violations.first() {
         Some(v) => println!("VIOLATION {}: {} — {}", v.key, v.clause, v.detail),
         None => println!("leaf reached, no violation; ledger {:?}", w.ledger.iter().map(|l| (l.complete, l.failures.clone())).collect::<Vec<_>>()),
